@@ -83,6 +83,9 @@ macro_rules! c14_for {
                         "OBS c14.count_writer: bits_written grows by exactly the number of bits appended to the stream",
                     );
                 }
+                if rw.is_err() && inner.bits.len == pre.len {
+                    kani::assert(counter == c0, "OBS c14.count_writer.err: a failed operation that appended nothing to the stream is not counted");
+                }
                 kani::cover!(rw.is_ok() && inner.bits.len > pre.len, "c14.count_writer reachable (bits appended)");
             }
 
